@@ -583,8 +583,8 @@ def run_shard(desc):
         for n, (u, v) in enumerate(pairs[desc[1]::desc[2]]):
             _conv_cases(sh, "reciprocal", u, v, [x for x in XS if x != 0], RARRAY, reciprocal=True,
                         tags=["reciprocal-dimension"])
-            if n == 5:
-                sh.sample(dict(sub="reciprocal", u=u["text"], v=v["text"]), limit=1)
+            if n == 5 and desc[1] == 0:
+                sh.sample(dict(sub="reciprocal", u=u["text"], v=v["text"], xs=[x for x in XS if x != 0]), limit=1)
     elif kind == "number-to-rad":
         for x in XS + [ARRAY]:
             r = check_number_to_rad(dict(sub="number-to-rad", x=x))
@@ -607,7 +607,7 @@ def run_shard(desc):
                      + (":bare-number" if u is None else ""))
             if bad is not None:
                 sh.fail(bad)
-            if n == 3:
+            if n == 3 and desc[1] in (0, 7):
                 sh.sample(dict(sub="refuse", u=None if u is None else u["text"], v=v["text"]), limit=1)
     elif kind == "triple":
         _, gi, lo, hi, wins = desc
@@ -630,6 +630,8 @@ def run_shard(desc):
             _guard(sh)
         for w in wins:
             sh.add_to_set("windows", w)
+        if lo == 0 and gi < 2:
+            sh.sample(dict(sub="triple", u=names[0], w=names[wins[0] % len(names)], v=names[-1], xs=TRIPLE_XS), limit=1)
     else:
         raise HarnessError("unknown shard %r" % (desc,))
     _guard(sh)
@@ -683,7 +685,7 @@ MANIFEST = dict(
          "-3.7e-7, 1e+-200) + one array, out-of-place, in-place and back; all 978 254 triples u->w->v x 2 magnitudes "
          "(quick: one quarter of the intermediates, chosen by the seed); 110 000 pairs of compound expressions (quick: "
          "one quarter of the sources) and the Gaussian fractional-exponent units against their definitions; all pairs of exactly reciprocal dimension; bare "
-         "number -> rad; 19 000 ordered pairs of representatives of different dimension (incl. pairs that differ only "
+         "number -> rad; 15 467 ordered pairs of 126 representatives of different dimension (incl. pairs that differ only "
          "in the rad exponent) must be refused by value() and to() and leave value and units untouched. Oracle: "
          "x*f(u)/f(v) in exact rational arithmetic over the published tables, rel 1e-12.",
     note="Float magnitudes are covered by 7 boundary representatives only; compound expressions have <= 3 terms over "
